@@ -139,22 +139,16 @@ def build(ctx):
         (r'\bvalue\.(intvalue|floatValue)\b', r'v->\1', 3),
         (r'\bValueFlow::truncateIntValue\(', 'truncateIntValue(', 1, 1),
         (r'\bdst->sign\b', 'dst_sign', 0, 1),
-        (r'\bgetConversionSign\(\*dst, settings\)', 'getConversionSign(dst_is_char ? VType_CHAR : VType_INT, dst_sign, g_default_sign)', 0, 1),
+        (r'\b(?:ValueFlow::)?getConversionSign\(\*dst, settings\)', 'getConversionSign(dst_is_char ? VType_CHAR : VType_INT, dst_sign, g_default_sign)', 0, 1),
         (r'\bdst->type == VType_BOOL && dst->pointer == 0\b', 'dst_is_bool', 0, 1),
         (r'\bcontinue\s*;', 'return;', 1, 2),
     ], ID + ".truncateValues"); n += k
     if re.search(r'\bvalue\.|ValueFlow|dst->|settings', extract.mask(tc)):
         raise extract.ExtractError("K01c: per-value block not fully lowered: %r" % tc.strip()[:300])
     # the signedness used for the conversion (plain char: the platform's default)
-    fcs = extract.locate_function("lib/valueflow.cpp", r'^static ValueType::Sign getConversionSign\(const ValueType& vt, const Settings& settings\)')
-    kb.add_located("getConversionSign", fcs)
-    tcs, k = located_rules(fcs, _common.VT_RULES + [
-        (r'^static enum Sign getConversionSign\(const ValueType& vt, const Settings& settings\)', 'static enum Sign getConversionSign(enum VType vt_type, enum Sign vt_sign, char defaultSign)', 1, 1),
-        (r'\bvt\.(type|sign)\b', r'vt_\1', 3, 3),
-        (r'\bsettings\.platform\.defaultSign\b', 'defaultSign', 4, 4),
-    ], ID + ".getConversionSign"); n += k
+    tcs_text, k = _common.conversion_sign(kb, ID); n += k
     kb.rules_fired = n
-    callsite = ("char g_default_sign; _Bool dst_is_char;   /* Platform::defaultSign; the destination is a char type */\n" + extract.strip_comments(tcs) + "\n" +"enum VVType { VV_INT, VV_FLOAT, VV_OTHER };\nstruct VValue { enum VVType vtype; _Bool impossible; bigint intvalue; double floatValue; };\n"
+    callsite = (tcs_text + "_Bool dst_is_char;   /* the destination is a char type */\n" +"enum VVType { VV_INT, VV_FLOAT, VV_OTHER };\nstruct VValue { enum VVType vtype; _Bool impossible; bigint intvalue; double floatValue; };\n"
                 "_Bool dst_is_bool;   /* the destination is a (non-pointer) bool: dst->type == BOOL && dst->pointer == 0 */\nvoid truncateValues_block(struct VValue *v, const size_t sz, enum Sign dst_sign)\n{\n%s\n}\n" % extract.strip_comments(tc))
     extract.residue_scan(callsite, ID)
     kb.ctext = _common.BASE + enums + trunc_text + callsite + HARNESS + HARNESS_CALLSITE
